@@ -169,8 +169,19 @@ func c07Deviations() []envDev {
 	})
 	// declared algorithm
 	add("alg-off-diagonal-valid-signature", "alg", "reject", "", "", func(s *envSpec) {
-		other := map[string]string{"ES256": "ES384", "ES384": "ES512", "ES512": "ES256", "PS256": "PS384", "PS384": "PS512", "PS512": "PS256"}[s.declAlg.Name]
-		s.declAlg = envenc.AlgByName(other)
+		// another algorithm of the key's family for which a mathematically valid signature exists; if none (P-521), HMAC keyed with the public key
+		key := pki.K(s.keyName)
+		for _, cand := range []string{"ES256", "ES384", "ES512", "PS256", "PS384", "PS512"} {
+			a := envenc.AlgByName(cand)
+			if cand == s.declAlg.Name || (a.Family == "pss") != key.IsRSA() {
+				continue
+			}
+			if _, ok := envenc.Sign(key, a, []byte("probe")); ok {
+				s.declAlg, s.signAlg = a, a
+				return
+			}
+		}
+		s.declAlg = envenc.AlgByName("HS256")
 		s.signAlg = s.declAlg
 	})
 	add("alg-missing", "alg", "reject", "", "", func(s *envSpec) {
